@@ -1,0 +1,244 @@
+//go:build verif
+
+package main
+
+import (
+	"bufio"
+	"encoding/json"
+	"fmt"
+	"os"
+	"path/filepath"
+	"strconv"
+	"strings"
+
+	"github.com/arm-doe/sts"
+	"github.com/arm-doe/sts/client"
+	"github.com/arm-doe/sts/log"
+	"github.com/arm-doe/sts/queue"
+	"github.com/arm-doe/sts/store"
+)
+
+// Line-protocol entry for the verification harness in /verif (build tag "verif" only,
+// active only with STS_VERIF_MAIN=tags): loads a configuration with the real loaders,
+// runs the real clientApp.init() for every source and answers tag look-ups with the
+// tagger / grouper / tag tables that init() built.
+//
+//	load yaml|json ESC(doc)   sts.NewConf on a scratch file          -> ok N | error MSG
+//	load cjson ESC(doc)       json.Unmarshal into sts.ClientConf     -> ok N | error MSG
+//	tagof I ESC(name)         -> group=G tag=T q=IDX:PRIO:ORDER:CHUNK:LASTDELAY f=IDX:INORDER:DELETE:DELDELAY
+//	rtags I                   -> p=PATTERN|nil,m=METHOD,o=ORDER ...
+//	ignores I                 -> std=N l:PATTERN,... (store ignore entries that are tag patterns)
+
+type verifNullLogger struct{}
+
+func (verifNullLogger) Debug(...interface{}) {}
+func (verifNullLogger) Info(...interface{})  {}
+func (verifNullLogger) Error(...interface{}) {}
+func (verifNullLogger) Recent(int) []string  { return nil }
+
+func verifEsc(s string) string {
+	if s == "" {
+		return "-"
+	}
+	if s == "-" {
+		return "%2d"
+	}
+	var b strings.Builder
+	for _, c := range []byte(s) {
+		switch {
+		case c >= 'a' && c <= 'z', c >= 'A' && c <= 'Z', c >= '0' && c <= '9',
+			c == '.', c == '_', c == '/', c == '-':
+			b.WriteByte(c)
+		default:
+			fmt.Fprintf(&b, "%%%02x", c)
+		}
+	}
+	return b.String()
+}
+
+func verifUnesc(s string) string {
+	if s == "-" {
+		return ""
+	}
+	var b []byte
+	for i := 0; i < len(s); i++ {
+		if s[i] == '%' && i+2 <= len(s)-1 {
+			if v, err := strconv.ParseUint(s[i+1:i+3], 16, 8); err == nil {
+				b = append(b, byte(v))
+				i += 2
+				continue
+			}
+		}
+		b = append(b, s[i])
+	}
+	return string(b)
+}
+
+type verifTagsApp struct {
+	app *clientApp
+	err error
+}
+
+func verifTagsLoad(kind, doc, tmp string) (apps []*verifTagsApp, err error) {
+	var cc *sts.ClientConf
+	switch kind {
+	case "yaml", "json":
+		path := filepath.Join(tmp, "verif-conf."+kind)
+		if err = os.WriteFile(path, []byte(doc), 0o600); err != nil {
+			return
+		}
+		var conf *sts.Conf
+		if conf, err = sts.NewConf(path); err != nil {
+			return
+		}
+		cc = conf.Client
+	case "cjson":
+		// as http.Client.GetClientConf does with the server's answer
+		cc = &sts.ClientConf{}
+		if err = json.Unmarshal([]byte(doc), cc); err != nil {
+			return
+		}
+	default:
+		err = fmt.Errorf("unknown kind")
+		return
+	}
+	if cc == nil {
+		return
+	}
+	for _, source := range cc.Sources {
+		c := &clientApp{conf: source, dirCache: tmp}
+		a := &verifTagsApp{app: c}
+		a.err = c.init()
+		apps = append(apps, a)
+	}
+	return
+}
+
+func verifTagsAnswer(apps []*verifTagsApp, loaded bool, f []string) string {
+	if !loaded {
+		return "no-conf"
+	}
+	i, err := strconv.Atoi(f[1])
+	if err != nil || i < 0 {
+		return "bad-op"
+	}
+	if i >= len(apps) {
+		return "no-source"
+	}
+	a := apps[i]
+	if a.err != nil {
+		return "no-init"
+	}
+	c := a.app
+	switch f[0] {
+	case "tagof":
+		if len(f) != 3 {
+			return "bad-op"
+		}
+		name := verifUnesc(f[2])
+		q := c.broker.Conf.Queue.(*queue.Tagged)
+		group, qi, qt := queue.VerifConfGroupTag(q, name)
+		tag := c.broker.Conf.Tagger(name)
+		fi, ft := client.VerifConfFileTag(c.broker.Conf, name)
+		qs, fs := "-", "-"
+		if qt != nil {
+			qs = fmt.Sprintf("%d:%d:%s:%d:%d", qi, qt.Priority, verifEsc(qt.Order), qt.ChunkSize, int64(qt.LastDelay))
+		}
+		if ft != nil {
+			fs = fmt.Sprintf("%d:%t:%t:%d", fi, ft.InOrder, ft.Delete, int64(ft.DeleteDelay))
+		}
+		return fmt.Sprintf("group=%s tag=%s q=%s f=%s", verifEsc(group), verifEsc(tag), qs, fs)
+	case "rtags":
+		var out []string
+		for _, t := range c.conf.Tags {
+			p := "nil"
+			if t.Pattern != nil {
+				p = verifEsc(t.Pattern.String())
+			}
+			out = append(out, fmt.Sprintf("p=%s,m=%s,o=%s", p, verifEsc(t.Method), verifEsc(t.Order)))
+		}
+		if len(out) == 0 {
+			return "-"
+		}
+		return strings.Join(out, " ")
+	case "ignores":
+		st := c.broker.Conf.Store.(*store.Local)
+		std := 0
+		var pats []string
+		for _, p := range st.Ignore {
+			cls := "std"
+			for _, q := range c.conf.Ignore {
+				if p == q {
+					cls = "conf"
+				}
+			}
+			for _, t := range c.conf.Tags {
+				if p == t.Pattern {
+					cls = "tag"
+				}
+			}
+			switch cls {
+			case "std":
+				std++
+			case "tag":
+				pats = append(pats, verifEsc(p.String()))
+			}
+		}
+		return fmt.Sprintf("std=%d l:%s", std, strings.Join(pats, ","))
+	}
+	return "bad-op"
+}
+
+func init() {
+	if os.Getenv("STS_VERIF_MAIN") != "tags" {
+		return
+	}
+	log.InitExternal(verifNullLogger{})
+	tmp := os.Getenv("VERIF_TMP")
+	if tmp == "" {
+		tmp = os.TempDir()
+	}
+	tmp, err := os.MkdirTemp(tmp, "stsmain-tags-")
+	if err != nil {
+		fmt.Fprintln(os.Stderr, err)
+		os.Exit(2)
+	}
+	defer os.RemoveAll(tmp)
+	in := bufio.NewReaderSize(os.Stdin, 1<<20)
+	out := bufio.NewWriter(os.Stdout)
+	var apps []*verifTagsApp
+	loaded := false
+	for {
+		line, rerr := in.ReadString('\n')
+		f := strings.Fields(line)
+		if len(f) > 0 {
+			ans := "bad-op"
+			func() {
+				defer func() {
+					if r := recover(); r != nil {
+						ans = "panic " + verifEsc(fmt.Sprint(r))
+					}
+				}()
+				switch {
+				case f[0] == "load" && len(f) == 3:
+					apps, err = verifTagsLoad(f[1], verifUnesc(f[2]), tmp)
+					loaded = err == nil
+					if err != nil {
+						ans = "error " + verifEsc(err.Error())
+					} else {
+						ans = fmt.Sprintf("ok %d", len(apps))
+					}
+				case (f[0] == "tagof" || f[0] == "rtags" || f[0] == "ignores") && len(f) >= 2:
+					ans = verifTagsAnswer(apps, loaded, f)
+				}
+			}()
+			fmt.Fprintln(out, ans)
+			out.Flush()
+		}
+		if rerr != nil {
+			break
+		}
+	}
+	os.RemoveAll(tmp)
+	os.Exit(0)
+}
